@@ -70,10 +70,19 @@ fn main() {
                     let b = a["bound"].as_i64().unwrap();
                     d = Some(PathDriver::new(maxb, if b < 0 { None } else { Some(b as u8) }, a["exploring"].as_bool().unwrap()));
                 }
-                "critical" => d.as_mut().unwrap().critical(),
-                "explore" => d.as_mut().unwrap().explore_state(),
-                "skip" => d.as_mut().unwrap().skip_branch(),
-                "backtrack" => d.as_mut().unwrap().backtrack(a["point"].as_u64().unwrap() as usize, a["thread"].as_u64().unwrap() as usize),
+                // a panic of the code under test is data (a mismatch), not a failure of the replayer
+                "critical" | "explore" | "skip" | "backtrack" => {
+                    let dd = d.as_mut().unwrap();
+                    let r = catch_unwind(AssertUnwindSafe(|| match a["a"].as_str().unwrap() {
+                        "critical" => dd.critical(),
+                        "explore" => dd.explore_state(),
+                        "skip" => dd.skip_branch(),
+                        _ => dd.backtrack(a["point"].as_u64().unwrap() as usize, a["thread"].as_u64().unwrap() as usize),
+                    }));
+                    if let Err(e) = r {
+                        bad = Some(json!({"impl_err": format!("panic: {}", panic_class(e))}));
+                    }
+                }
                 "thread" => {
                     let seed: Vec<u8> = a["seed"].as_array().unwrap().iter().map(|s| code(s.as_str().unwrap())).collect();
                     let dd = d.as_mut().unwrap();
@@ -104,7 +113,13 @@ fn main() {
                 "step" => {
                     nsteps += 1;
                     let dd = d.as_mut().unwrap();
-                    let ok = dd.step();
+                    let ok = match catch_unwind(AssertUnwindSafe(|| dd.step())) {
+                        Ok(v) => v,
+                        Err(e) => {
+                            mismatches.push(json!({"behaviour": lineno, "action_index": k, "action": a, "impl": {"impl_err": format!("panic: {}", panic_class(e))}}));
+                            break;
+                        }
+                    };
                     if ok != a["ret"].as_bool().unwrap() {
                         bad = Some(json!({"impl_ret": ok}));
                     } else if ok {
